@@ -75,6 +75,20 @@ Theorem C28_ita_refuted : exists s,
 Proof. exists (st0 true [] [mkI pa MReg (mkHash 0 0) 0 1 true] [mkW pa MReg 1 2 5 false false]). split; reflexivity. Qed.
 Print Assumptions C28_ita_refuted.
 
+(* a symbolic link named .gitignore (.gitattributes, .mailmap, .gitmodules): go-git
+   refuses to write the tree, git write-tree records it *)
+Theorem C28_commit_symlink_refuted : exists s, g_commit s = None /\ List.length (s_tree_files s) = 1%nat.
+Proof.
+  exists (st0 true [] [mkI (bytes_of_string ".gitignore") MLink (mkHash 0 1) 3 5 false] []). split; reflexivity.
+Qed.
+Print Assumptions C28_commit_symlink_refuted.
+
+(* otherwise Commit records the tree of C28_write_tree *)
+Theorem C28_commit_files : forall s,
+  existsb symlink_meta (st_index s) = false -> g_commit s = Some (g_commit_files s).
+Proof. intros s H. unfold g_commit. now rewrite H. Qed.
+Print Assumptions C28_commit_files.
+
 (* --- rm of a tracked file that is not a directory in the worktree *)
 Theorem C28_rm_file_eq : forall s p,
   is_some (find_i (st_index s) p) = true ->
